@@ -23,9 +23,15 @@ import (
 // begin; returned error nil only when the commit succeeded; commit / rollback
 // failures reported.
 //
-// Fault enumeration: every run executes ONE transaction on a fresh database;
-// the (api, tx-layer fault, body size, body ending, position) tuple is decoded
-// from the first draw of the run, so a batch sweeps the whole space many times.
+// Enumerated mode (4 runs out of 5): every run executes ONE transaction on a fresh
+// database; the (api, tx-layer fault, body size, body ending, position) tuple is
+// decoded from one uniform draw, so a batch covers the whole space many times
+// (measured by the tuple-* probes; the draw is random, not a counter).
+//
+// Pool mode (1 run out of 5, pool_test.go): 2-3 client tasks each run one
+// transaction on the SAME sql.DB / SqlConn, with their own fault plans, pauses
+// inside the bodies and optionally a canceller task; the same oracle is applied
+// per client to that client's events in the shared driver log.
 
 func init() { logx.Disable() }
 
@@ -40,9 +46,10 @@ const (
 	endStmtFail                  // the pos-th statement fails in the driver, body returns that error
 	endStmtIgnored               // the pos-th statement fails, body ignores it, finishes, returns nil
 	endCancel                    // body cancels the context after pos statements and carries on
+	endAsyncCancel               // pool mode only (not part of the enumerated space): a canceller task cancels the context at a tape-drawn virtual instant while the body pauses between statements
 )
 
-var endingNames = [...]string{"nil", "err", "panic", "stmtfail", "stmtignored", "cancel"}
+var endingNames = [...]string{"nil", "err", "panic", "stmtfail", "stmtignored", "cancel", "asynccancel"}
 
 const (
 	txfNone = iota
@@ -77,7 +84,7 @@ type tuple struct {
 // api is reported separately (it is swept too, see spaceSize).
 func (tp tuple) name() string {
 	s := fmt.Sprintf("n%d-%s", tp.n, endingNames[tp.end])
-	if tp.end != endNil {
+	if tp.end != endNil && tp.end != endAsyncCancel {
 		s += fmt.Sprintf("@%d", tp.pos)
 	}
 	return s + "-" + txfNames[tp.txf]
@@ -141,10 +148,25 @@ var kindNames = [...]string{"Exec", "QueryRow", "QueryRows", "Prepare+Exec", "Pr
 
 type customPanic struct{ code int }
 
+type pause struct {
+	yields int
+	sleep  time.Duration
+}
+
 type world struct {
 	r      *simrt.Run
 	db     *simDB
 	tp     tuple
+	client int  // 0 in the enumerated mode
+	pool   bool // pool mode: the driver log is shared with other clients
+	// pool mode only
+	pauses            []pause // pauses[k]: before the action "after k statements"
+	ignoreCancel      bool    // endAsyncCancel: the body ignores statements refused because of the cancelled context
+	cancelFired       bool    // set by the canceller task right before it cancels
+	cancelledAtReturn bool
+	ret               error
+	escaped           any
+	didEscape         bool
 	kinds  []int  // statement kinds, 1-based
 	useCtx []bool // statement uses the *Ctx method with the body's context
 	wrap   bool   // body wraps a statement error before returning it
@@ -160,17 +182,19 @@ type world struct {
 	unexpected  int
 }
 
-func query(k int, suffix string) string {
-	return fmt.Sprintf("/*s%d*/ %s where id = ?", k, suffix)
+// query tags the statement text with 100*client + statement number (see simsql stmtTag).
+func query(tag int, suffix string) string {
+	return fmt.Sprintf("/*s%d*/ %s where id = ?", tag, suffix)
 }
 
 // stmt issues the k-th statement of the body on the transaction session.
 func (w *world) stmt(ctx context.Context, s sqlx.Session, k int) error {
 	w.stmtsIssued++
 	uc := w.useCtx[k]
+	tag := 100*w.client + k
 	switch w.kinds[k] {
 	case kExec:
-		q := query(k, "update t set v = v + 1")
+		q := query(tag, "update t set v = v + 1")
 		if uc {
 			_, err := s.ExecCtx(ctx, q, k)
 			return err
@@ -179,22 +203,22 @@ func (w *world) stmt(ctx context.Context, s sqlx.Session, k int) error {
 		return err
 	case kQueryRow:
 		var v int64
-		q := query(k, "select v from t")
+		q := query(tag, "select v from t")
 		if uc {
 			return s.QueryRowCtx(ctx, &v, q, k)
 		}
 		return s.QueryRow(&v, q, k)
 	case kQueryRows:
 		var vs []int64
-		q := query(k, "select v from t")
+		q := query(tag, "select v from t")
 		if uc {
 			return s.QueryRowsCtx(ctx, &vs, q, k)
 		}
 		return s.QueryRows(&vs, q, k)
 	default:
-		q := query(k, "update t set v = v - 1")
+		q := query(tag, "update t set v = v - 1")
 		if w.kinds[k] == kPrepQueryRow {
-			q = query(k, "select v from t")
+			q = query(tag, "select v from t")
 		}
 		var st sqlx.StmtSession
 		var err error
@@ -263,8 +287,16 @@ func (w *world) txBody(ctx context.Context, s sqlx.Session) error {
 	w.outcome = "running"
 	tp := w.tp
 	for done := 0; ; done++ {
+		if done < len(w.pauses) { // pool mode: let the other clients (and the canceller) run
+			for i := 0; i < w.pauses[done].yields; i++ {
+				w.r.Yield()
+			}
+			if d := w.pauses[done].sleep; d > 0 {
+				w.r.Sleep(d)
+			}
+		}
 		// action "after <done> statements"
-		if tp.pos == done {
+		if tp.pos == done && tp.end != endAsyncCancel {
 			switch tp.end {
 			case endErr:
 				return w.finish("err", w.ownError())
@@ -284,6 +316,13 @@ func (w *world) txBody(ctx context.Context, s sqlx.Session) error {
 			if tp.end == endCancel && done >= tp.pos && errors.Is(err, context.Canceled) {
 				w.r.Probe("stmt-refused-after-cancel")
 				planned = true
+			}
+			if tp.end == endAsyncCancel && w.cancelFired && errors.Is(err, context.Canceled) {
+				w.r.Probe("pool-stmt-refused-after-async-cancel")
+				planned = true
+				if w.ignoreCancel {
+					continue
+				}
 			}
 			if !planned {
 				w.unexpected++
@@ -319,6 +358,10 @@ func drawPlan(r *simrt.Run, tier string) (tuple, bool) {
 
 func body(r *simrt.Run, tier string) {
 	t := r.Tape
+	if nextMode == modePool {
+		bodyPool(r, tier)
+		return
+	}
 	tp, sampled := drawPlan(r, tier)
 	w := &world{r: r, tp: tp, db: newSimDB(tp.name())}
 	db := w.db
@@ -384,27 +427,8 @@ func body(r *simrt.Run, tier string) {
 	}
 
 	// ---- the one transaction of this run
-	var ret error
-	var escaped any
-	didEscape := false
-	func() {
-		defer func() {
-			if p := recover(); p != nil {
-				escaped, didEscape = p, true
-			}
-		}()
-		plain := func(s sqlx.Session) error { return w.txBody(w.bctx, s) }
-		switch tp.api {
-		case apiSqlxTransact:
-			ret = conn.Transact(plain)
-		case apiSqlxTransactCtx:
-			ret = conn.TransactCtx(w.bctx, w.txBody)
-		case apiSqlcTransact:
-			ret = sqlc.NewConnWithCache(conn, nil).Transact(plain)
-		default:
-			ret = sqlc.NewConnWithCache(conn, nil).TransactCtx(w.bctx, w.txBody)
-		}
-	}()
+	w.transact(conn)
+	ret, escaped, didEscape := w.ret, w.escaped, w.didEscape
 
 	log := db.snapshot()
 	for _, e := range log {
@@ -458,6 +482,43 @@ func body(r *simrt.Run, tier string) {
 		"body_outcome": w.outcome, "returned": retStr})
 }
 
+// transact performs the client's one Transact/TransactCtx call and keeps what the caller got.
+func (w *world) transact(conn sqlx.SqlConn) {
+	defer func() {
+		if p := recover(); p != nil {
+			w.escaped, w.didEscape = p, true
+		}
+		w.cancelledAtReturn = w.cancelFired
+	}()
+	plain := func(s sqlx.Session) error { return w.txBody(w.bctx, s) }
+	switch w.tp.api {
+	case apiSqlxTransact:
+		w.ret = conn.Transact(plain)
+	case apiSqlxTransactCtx:
+		w.ret = conn.TransactCtx(w.bctx, w.txBody)
+	case apiSqlcTransact:
+		w.ret = sqlc.NewConnWithCache(conn, nil).Transact(plain)
+	default:
+		w.ret = sqlc.NewConnWithCache(conn, nil).TransactCtx(w.bctx, w.txBody)
+	}
+}
+
+// mine selects the events of the shared driver log that belong to this client:
+// statements by the client number in their tag, BEGIN / connect by the task on which the
+// driver was called, COMMIT / ROLLBACK by the client that began the transaction.
+func (w *world) mine(log []dbEvent) []dbEvent {
+	if !w.pool {
+		return log
+	}
+	var out []dbEvent
+	for _, e := range log {
+		if (e.tag != 0 && e.tag/100 == w.client) || (e.tag == 0 && e.client == w.client) {
+			out = append(out, e)
+		}
+	}
+	return out
+}
+
 // reports tells whether the error handed to the caller carries the given failure.
 func reports(ret, cause error) bool {
 	if ret == nil || cause == nil {
@@ -470,6 +531,7 @@ func reports(ret, cause error) bool {
 // begin/statement/commit/rollback log, what the body did, and what the caller got.
 func (w *world) check(log []dbEvent, ret error, didEscape bool, escaped any, inUse int) {
 	r := w.r
+	log = w.mine(log)
 	var begins, okBegins, connectFailures int
 	var txn int
 	var beginSeq int
@@ -488,8 +550,12 @@ func (w *world) check(log []dbEvent, ret error, didEscape bool, escaped any, inU
 		}
 	}
 	trail := func() string {
-		return fmt.Sprintf("[api %s, tuple %s] driver log: %s; body runs=%d outcome=%s; returned error: %v",
-			apiNames[w.tp.api], w.tp.name(), logString(w.db.snapshot()), w.bodyRuns, w.outcome, ret)
+		who := ""
+		if w.pool {
+			who = fmt.Sprintf("client c%d of a shared pool, ", w.client)
+		}
+		return fmt.Sprintf("[%sapi %s, tuple %s] driver log: %s; body runs=%d outcome=%s; returned error: %v",
+			who, apiNames[w.tp.api], w.tp.name(), logString(w.db.snapshot()), w.bodyRuns, w.outcome, ret)
 	}
 
 	// "begins one transaction"
@@ -513,6 +579,12 @@ func (w *world) check(log []dbEvent, ret error, didEscape bool, escaped any, inU
 	}
 	if okBegins == 0 {
 		if begins == 0 && connectFailures == 0 {
+			if w.cancelledAtReturn && w.bodyRuns == 0 && errors.Is(ret, context.Canceled) {
+				// pool mode: the canceller fired before the transaction began; refusing to begin
+				// on a done context (nothing run, the context's error returned) is within the statement
+				r.Probe("pool-cancelled-before-begin")
+				return
+			}
 			r.Fail("no-begin", "Transact returned without trying to begin a transaction. %s", trail())
 			return
 		}
@@ -546,7 +618,7 @@ func (w *world) check(log []dbEvent, ret error, didEscape bool, escaped any, inU
 			}
 		}
 		if e.tag != 0 && (e.tx != txn || e.seq < beginSeq || (endEv.seq != 0 && e.seq > endEv.seq)) {
-			r.Fail("stmt-outside-tx", "statement %d of the body did not execute inside the transaction that Transact began (event %s). %s", e.tag, e, trail())
+			r.Fail("stmt-outside-tx", "statement %d of the body did not execute inside the transaction that Transact began for it (tx %d) (event %s). %s", e.tag%100, txn, e, trail())
 			return
 		}
 	}
@@ -606,11 +678,26 @@ func (w *world) check(log []dbEvent, ret error, didEscape bool, escaped any, inU
 	}
 }
 
+const (
+	modeEnum = iota
+	modePool
+)
+
+// nextMode is decided by config (it is called with the run's tape right before body) because
+// the scheduler knobs depend on it; body of the same run consumes it.
+var nextMode int
+
 func config(t *simrt.Tape, tier string) simrt.Config {
-	// one client task: forced switches cannot change anything; keep rare virtual-time
-	// stalls (a statement or the commit may take longer than the slow-call threshold)
+	// enumerated mode: one client task, forced switches cannot change anything; keep rare
+	// virtual-time stalls (a statement or the commit may take longer than the slow-call threshold)
 	st := []int{0, 0, 0, 20}[t.Intn(4)]
-	return simrt.Config{SwitchPerMille: 0, StallPerMille: st, StallMax: 2 * time.Second, MaxSteps: 30000, MaxVirtual: 48 * time.Hour}
+	sw := 0
+	nextMode = modeEnum
+	if t.Intn(5) == 4 {
+		nextMode = modePool
+		sw = []int{50, 150, 400}[t.Intn(3)]
+	}
+	return simrt.Config{SwitchPerMille: sw, StallPerMille: st, StallMax: 2 * time.Second, MaxSteps: 30000, MaxVirtual: 48 * time.Hour}
 }
 
 func TestSim(t *testing.T) {
